@@ -5,6 +5,7 @@ import vcheck
 PROP = "C05"
 
 TRUSTED = [
+    "go2coq translator (harness/cmd/go2coq, semantics coq/lib/GoSem.v): props/C05/coq/Gen.v is regenerated from the Go source of seq.Less, proxy/search Ingestor.paginateIDs on every run; supported subset: integer/boolean expressions over int, int64, uint64, uint32, uint8 and named integer types with explicit wrap-around, truncated signed division, checked division/indexing/slicing/shift counts (Panic), if/else with early return, local assignments, tuples, calls between translated functions, min/max/len, numeric struct fields, fuelled for-loops, range loops as folds; anything else is rejected (red gate). externs: none; the IDSources handed to paginateIDs are opaque integer tags (the translator rejects any inspection of them); slice expressions assume capacity = length. Validated on every run by the gen-* correspondence classes (real function vs generated definition on boundary and random arguments)",
     "Coq 8.16.1 kernel (coqc), vm_compute for case evaluation; no native_compute",
     "hand-written model props/C05/coq/Model.v of MergeQPRs/removeRepetitionsAdvanced, FilterInRange/Sort/Shift, "
     "SearchDocs + calcEnsuredIDsCount, the per-fraction answer of iterateEvalTree, Ingestor.Search merge + paginateIDs "
